@@ -41,33 +41,35 @@ package memdb
 //@   props C18 C11
 //@   flags lockcheck
 //@   requires m.s != nil && memInv(m.s)
-//@   modifies m.pos
+//@   modifies m.pos, m.cur, m.placed
 //@   ensures [C18:mem-cursor-first-is-lowest-round] err == nil ==> m.pos == 0 && b == m.s.store[0] && (forall k int :: 0 <= k && k < len(m.s.store) ==> b.Round <= m.s.store[k].Round)
+//@   ensures [C11,C18:mem-cursor-remembers-the-round-it-stands-on] err == nil ==> m.placed && m.cur == b.Round
 //@   ensures [C18:mem-cursor-first-fails-only-when-empty] err != nil ==> len(m.s.store) == 0
 
-// standsOn(c): the round of the beacon the cursor returned last (what a client of the cursor knows about its position).
-// The cursor itself keeps an index into the ring. C11 asks that a scan skips no stored round "while new beacons are being
-// stored concurrently": Next has to move to the smallest stored round above the one it stood on, whatever happened to
-// the ring between the two calls. With only the index to go by this cannot be shown (a Put into a full ring drops the
-// oldest entry and moves every entry one place down): known finding, replayed on the real code.
-//@ ghostfield standsOn(ref) int
+// The cursor remembers the round of the beacon it stands on (m.cur, once placed): the ring drops its oldest entries as new
+// beacons are stored, so an index does not identify that beacon from one call to the next. C11 asks that a scan skips no
+// stored round "while new beacons are being stored concurrently": Next moves to the smallest stored round above the one
+// it stood on, whatever happened to the ring between the two calls (fix: the cursor was positional).
 //@ func (*memDBCursor).Next(m, ctx) (b, err)
 //@   props C18 C11
 //@   flags lockcheck
 //@   requires m.s != nil && memInv(m.s) && 0 <= m.pos && m.pos < 9223372036854775807
-//@   modifies m.pos
-//@   ensures [C11:mem-cursor-next-is-the-successor-of-the-round-it-stood-on] err == nil ==> b.Round > old(standsOn(m)) && (forall k int :: 0 <= k && k < len(m.s.store) && m.s.store[k].Round > old(standsOn(m)) ==> b.Round <= m.s.store[k].Round)
-//@   ensures [C18:mem-cursor-next-is-ascending-successor] err == nil ==> m.pos == old(m.pos) + 1 && m.pos < len(m.s.store) && b == m.s.store[m.pos] && (old(m.pos) < len(m.s.store) ==> m.s.store[old(m.pos)].Round < b.Round)
-//@   ensures [C18:mem-cursor-next-skips-nothing] err == nil ==> (forall k int :: 0 <= k && k < len(m.s.store) && m.s.store[old(m.pos)].Round < m.s.store[k].Round ==> b.Round <= m.s.store[k].Round)
+//@   modifies m.pos, m.cur, m.placed
+//@   loop 0: invariant [C18:mem-next-scan] -1 <= rangeindex && rangeindex < len(m.s.store) && m.pos == len(m.s.store) && m.cur == old(m.cur) && m.placed == old(m.placed) && (forall k int :: 0 <= k && k <= rangeindex ==> m.s.store[k].Round <= m.cur)
+//@   ensures [C11,C18:mem-cursor-next-is-the-successor-of-the-round-it-stood-on] old(m.placed) && err == nil ==> b.Round > old(m.cur) && (forall k int :: 0 <= k && k < len(m.s.store) && m.s.store[k].Round > old(m.cur) ==> b.Round <= m.s.store[k].Round)
+//@   ensures [C11,C18:mem-cursor-next-reports-the-end-only-at-the-end] old(m.placed) && err != nil ==> (forall k int :: 0 <= k && k < len(m.s.store) ==> m.s.store[k].Round <= old(m.cur))
+//@   ensures [C18:mem-cursor-next-returns-the-entry-it-stands-on] err == nil ==> 0 <= m.pos && m.pos < len(m.s.store) && b == m.s.store[m.pos] && m.placed && m.cur == b.Round
+//@   ensures [C18:an-unplaced-cursor-steps-by-position] !old(m.placed) && err == nil ==> m.pos == old(m.pos) + 1
 
 //@ func (*memDBCursor).Seek(m, ctx, round) (b, err)
 //@   props C18 C11
 //@   flags lockcheck
 //@   requires m.s != nil && memInv(m.s)
-//@   modifies m.pos
-//@   loop 0: invariant [C18:mem-seek-scan] -1 <= rangeindex && rangeindex < len(m.s.store) && m.pos == old(m.pos) && (forall k int :: 0 <= k && k <= rangeindex ==> m.s.store[k].Round < round)
+//@   modifies m.pos, m.cur, m.placed
+//@   loop 0: invariant [C18:mem-seek-scan] -1 <= rangeindex && rangeindex < len(m.s.store) && m.pos == old(m.pos) && m.cur == old(m.cur) && m.placed == old(m.placed) && (forall k int :: 0 <= k && k <= rangeindex ==> m.s.store[k].Round < round)
 //@   ensures [C18:mem-seek-stands-on-the-first-stored-round-at-or-after-the-requested-one] err == nil ==> b != nil && b.Round >= round && 0 <= m.pos && m.pos < len(m.s.store) && m.s.store[m.pos] == b && (forall k int :: 0 <= k && k < m.pos ==> m.s.store[k].Round < round)
 //@   ensures [C18:mem-seek-of-a-stored-round-returns-that-round] err == nil && memHas(m.s, round) ==> b.Round == round
+//@   ensures [C11,C18:mem-cursor-remembers-the-round-it-stands-on] err == nil ==> m.placed && m.cur == b.Round
 //@   ensures [C18:mem-seek-fails-only-for-absent-rounds] err != nil ==> !memHas(m.s, round) && m.pos == old(m.pos)
 // C11: the stream routine starts its catch-up scan with Seek(from) and takes "nothing stored" as the end of the data: that
 // answer is right only when no round at or after `from` is stored (this is what the abstract cursor contract the C11
@@ -78,7 +80,8 @@ package memdb
 //@   props C18 C11
 //@   flags lockcheck
 //@   requires m.s != nil && memInv(m.s)
-//@   modifies m.pos
+//@   modifies m.pos, m.cur, m.placed
+//@   ensures [C11,C18:mem-cursor-remembers-the-round-it-stands-on] err == nil ==> m.placed && m.cur == b.Round
 //@   ensures [C18:mem-cursor-last-is-highest-round] err == nil ==> m.pos == len(m.s.store) - 1 && b == m.s.store[m.pos] && (forall k int :: 0 <= k && k < len(m.s.store) ==> m.s.store[k].Round <= b.Round)
 
 //@ pred beaconsOf(x) := asSlice(x, "[]*github.com/drand/drand/v2/common.Beacon")
